@@ -283,7 +283,7 @@ class Interp:
             return env
         if isinstance(s, (ast.Import, ast.ImportFrom, ast.Global, ast.Nonlocal, ast.Delete)):
             return env
-        self.notes.add("unsupported statement %s in %s" % (type(s).__name__, f.qualname))
+        self.notes.add("UNSOUND: unsupported statement %s in %s" % (type(s).__name__, f.qualname))
         return env
 
     @staticmethod
@@ -497,6 +497,8 @@ class Interp:
             if new_head == head:
                 break
             head = new_head
+        else:
+            self.notes.add("UNSOUND: loop fixed point not reached in %s" % f.qualname)
         loops.pop()
         exits = [head] + ctl["break"]
         return self.join_envs([x for x in exits if x is not None])
@@ -522,6 +524,8 @@ class Interp:
             if new_head == head:
                 break
             head = new_head
+        else:
+            self.notes.add("UNSOUND: while-loop fixed point not reached in %s" % f.qualname)
         loops.pop()
         b, et, ef = self.cond(s.test, head, f)
         if ef is not None:
